@@ -11,6 +11,29 @@ async function loadProp(p) {
   return import(pathToFileURL(path.join(here, 'props', `${p}.mjs`)).href);
 }
 
+/** yields [line, byteOffset, byteLength] for every non-blank line of an open file, reading 32 MB at a time */
+function* linesWithPos(fd) {
+  const CH = 32 << 20;
+  const buf = Buffer.alloc(CH);
+  let filePos = 0, carry = Buffer.alloc(0), carryPos = 0;
+  for (;;) {
+    const n = fs.readSync(fd, buf, 0, CH, filePos);
+    if (n === 0) break;
+    let chunk = buf.subarray(0, n), base = filePos;
+    if (carry.length) { chunk = Buffer.concat([carry, chunk]); base = carryPos; }
+    let start = 0;
+    for (;;) {
+      const nl = chunk.indexOf(10, start);
+      if (nl < 0) break;
+      if (nl > start) { const line = chunk.toString('utf8', start, nl); if (line.trim() !== '') yield [line, base + start, nl - start]; }
+      start = nl + 1;
+    }
+    carry = Buffer.from(chunk.subarray(start)); carryPos = base + start;
+    filePos += n;
+  }
+  if (carry.length) { const line = carry.toString('utf8'); if (line.trim() !== '') yield [line, carryPos, carry.length]; }
+}
+
 function readLines(file) {
   if (!fs.existsSync(file)) return [];
   return fs.readFileSync(file, 'utf8').split('\n').filter((l) => l.trim() !== '');
@@ -54,19 +77,24 @@ async function main() {
   if (cmd === 'check') {
     const [casesFile, resultsFile, out] = rest;
     const mod = await loadProp(prop);
-    const cases = readLines(casesFile).map((l) => JSON.parse(l));
-    const results = new Map();
-    for (const l of readLines(resultsFile)) {
-      const r = JSON.parse(l);
-      results.set(r.id, r);
+    // both files are streamed: the thorough tiers produce shards of several GB
+    const rfd = fs.existsSync(resultsFile) ? fs.openSync(resultsFile, 'r') : null;
+    const index = new Map(); // case id -> [offset, length] of its record line (later lines win)
+    if (rfd !== null) for (const [line, pos, len] of linesWithPos(rfd)) { let rid; try { rid = JSON.parse(line).id; } catch { continue; } index.set(rid, [pos, len]); }
+    const results = { get(id) { const e = index.get(id); if (!e) return undefined; const b = Buffer.alloc(e[1]); fs.readSync(rfd, b, 0, e[1], e[0]); return JSON.parse(b.toString('utf8')); } };
+    function* groupsOf(file) {
+      const cfd = fs.openSync(file, 'r');
+      let cur = null, curGid = null;
+      for (const [line] of linesWithPos(cfd)) {
+        const c = JSON.parse(line);
+        if (c.gid !== curGid) { if (cur) yield [curGid, cur]; cur = { meta: null, cases: {} }; curGid = c.gid; }
+        if (c.group) cur.meta = c.group;
+        cur.cases[c.vid] = c;
+      }
+      if (cur) yield [curGid, cur];
+      fs.closeSync(cfd);
     }
-    const groups = new Map();
-    for (const c of cases) {
-      if (!groups.has(c.gid)) groups.set(c.gid, { meta: null, cases: {} });
-      const g = groups.get(c.gid);
-      if (c.group) g.meta = c.group;
-      g.cases[c.vid] = c;
-    }
+    const groups = { [Symbol.iterator]: () => groupsOf(casesFile) };
     const fd = fs.openSync(out, 'w');
     let sampled = 0;
     const sigSeen = new Map();
